@@ -60,8 +60,17 @@ def run(ctx):
                 nxt += 1
         return rows
 
+    coded_labels = [None]
+
     def table(rows):
-        return Interval([r[0] for r in rows], np.array([r[1] for r in rows], dtype=int), np.array([r[2] for r in rows], dtype=int))
+        names_ = [r[0] for r in rows]
+        if coded_labels[0] is not None and rows:
+            # the chromosome column held as codes of a label encoding (what Genome.get_intervals(table).data and as_stream() hold) instead of text
+            from bionumpy.encodings.string_encodings import StringEncoding
+            labels = list(coded_labels[0]) + sorted(set(names_) - set(coded_labels[0]))
+            names_ = bnp.as_encoded_array(names_, StringEncoding(labels))
+            ctx.count("tables_with_coded_chromosome_column")
+        return Interval(names_, np.array([r[1] for r in rows], dtype=int), np.array([r[2] for r in rows], dtype=int))
 
     def stream(rows, cuts):
         t = table(rows)
@@ -112,6 +121,11 @@ def run(ctx):
             lng = lambda n: n if n in ("chr9_alt", "chrM") else "chromosome00" + n
             names, groups = [lng(n) for n in names], [lng(g) for g in groups]
             case = dict(case, genome=names, groups=groups)
+        if case.get("punct") and not case.get("long_names"):
+            # contig names with punctuation other than '_' (accession versions, HLA alleles, scaffold numbers): ordinary contigs for every filter
+            pn = {"chr2": "KI270728.1", "chr3": "HLA-A", "chr4": "scaffold-12", "chrX": "X.1"}
+            names, groups = [pn.get(n, n) for n in names], [pn.get(g, g) for g in groups]
+            case = dict(case, genome=names, groups=groups)
         ignored = "chr9_alt"
         sizes = {n: SIZE for n in names}
         sizes_with_ignored = dict(sizes)
@@ -134,6 +148,10 @@ def run(ctx):
             genome = genome.with_ignored_added(["chrM"])
             ignored_names.add("chrM")
         rows = make_rows(groups)
+        cuts = [c_ for c_ in cuts if 0 < c_ < len(rows)]          # renamed contigs change the number of entries: no cut beyond the last entry (no empty chunks)
+        case = dict(case, cuts=cuts)
+        # a quarter of the cases hold the chromosome column as codes; the label list is the genome's (other genomes, in other orders, come before and after in the same process)
+        coded_labels[0] = list(sizes_with_ignored) if case.get("coded") else None
         included = [r for r in rows if r[0] in names]
         unknown = [g for g in groups if g not in names and g not in ignored_names]
         order = [g for g in groups if g in names]
@@ -350,7 +368,8 @@ def run(ctx):
             continue
         n_entries = len(make_rows(groups))
         for ci, cuts in enumerate(chunkings(n_entries, gen, ctx.pick(1, 4))):
-            ctx.run_case(one, {"genome": names, "groups": groups, "cuts": list(cuts), "similarity": ci == 0, "geometry": ci < 2, "extra_ignored": extra_ignored, "long_names": (idx + ci) % 3 == 0, "no_filter": (idx + 2 * ci) % 4 == 1})
+            ctx.run_case(one, {"genome": names, "groups": groups, "cuts": list(cuts), "similarity": ci == 0, "geometry": ci < 2, "extra_ignored": extra_ignored, "long_names": (idx + ci) % 3 == 0, "no_filter": (idx + 2 * ci) % 4 == 1, "coded": (idx + 3 * ci) % 4 == 2, "punct": (idx + ci) % 3 == 1})
+    coded_labels[0] = None
     # ---- contigs that add up to more than 2**31 positions: the per-contig counts are summed over the genome ---------------------------
     def big_similarity(case):
         r = random.Random(case["seed"])
